@@ -508,15 +508,79 @@ def _fn_quals(path):
     return out
 
 
+def _items_of(path):
+    out = []
+    try:
+        lines = gen.expand_includes(open(path, encoding='utf-8').read().split('\n'))
+    except Exception:
+        return out
+    for l in lines:
+        t = l.strip()
+        if t.startswith('//@@ item '):
+            w = t.split()
+            out.append((w[2], w[3], w[4]))
+    return out
+
+
+def _sha(txt):
+    import hashlib
+    return hashlib.sha256(txt.encode()).hexdigest()[:16]
+
+
+def changed_fns(unit_name):
+    """The functions of the unit whose source text differs from the text the baseline proof was made on, or None when that cannot
+    be told (no record, or a type / constant the unit extracts changed as well: then every function counts as changed)."""
+    d = os.path.join(VERIF, 'units', unit_name)
+    try:
+        base = json.load(open(BASELINE)).get(unit_name, {})
+    except Exception:
+        return None
+    bsha, bitems = base.get('sha'), base.get('items')
+    if not bsha or bitems is None:
+        return None
+    try:
+        for rel, kind, name in _items_of(os.path.join(d, 'unit.rs')):
+            rf = gen.load(rel)
+            a, kw, b = rf.find_item(kind, name)
+            if bitems.get('%s %s' % (kind, name)) != _sha(rf.text[a:b]):
+                return None
+    except Exception:
+        return None
+    out = set()
+    names = {}
+    try:
+        for l in gen.expand_includes(open(os.path.join(d, 'unit.rs'), encoding='utf-8').read().split('\n')):
+            t = l.strip()
+            if t.startswith('//@@ fn '):
+                w = t.split()
+                names[(w[2], w[3])] = gen.parse_opts(w[4:]).get('name', w[3])
+    except Exception:
+        return None
+    for rel, qual in _fn_quals(os.path.join(d, 'unit.rs')):
+        try:
+            rf = gen.load(rel)
+            a, kw, bo, bc = rf.find_fn(qual)
+            if bsha.get(names.get((rel, qual), qual)) != _sha(rf.text[a:bc + 1]):
+                out.add((rel, qual))
+        except Exception:
+            out.add((rel, qual))
+    return out
+
+
 def witness_covers(unit_name):
-    """True when the unit's replay program extracts every function the unit puts under contract."""
+    """True when the unit's replay program extracts every function the unit puts under contract - or, when the types and constants
+    the unit extracts are unchanged, every function whose text changed: a function whose text, callee contracts and types are those
+    of the baseline proof keeps that proof (it is listed as carried over, not re-checked, in the DEGRADED line's evidence)."""
     d = os.path.join(VERIF, 'units', unit_name)
     w = os.path.join(d, 'witness.rs')
     if not os.path.exists(w):
         return False
     need = _fn_quals(os.path.join(d, 'unit.rs'))
     have = _fn_quals(w)
-    return bool(need) and need <= have
+    if bool(need) and need <= have:
+        return True
+    ch = changed_fns(unit_name)
+    return bool(ch) and ch <= have
 
 
 DEGRADABLE = ('extraction:', 'front end:', 'undeclared ')
@@ -684,6 +748,14 @@ def report(prop, tier, seed, results, extras, wall, rebaseline, replay):
         u.functions_total = list(u.functions)
         if only_fns is not None and not unit_header_opts(os.path.join(UNITS, u.name)).get('noverus'):
             u.failures = [f for f in u.failures if f.fn in only_fns]
+            if u.name in pf.get('strict_units', []):
+                # in these units only the labelled clauses belong to this property; any other obligation of the same functions
+                # (termination, arithmetic) is carried by the property that owns it, in its own unit
+                other = [f for f in u.failures if f.kind == 'verification' and not any(l.startswith(x) for l in f.labels for x in label_prefixes)]
+                for f in other:
+                    print('NOTE unit=%s %s fails, which is not a clause of %s (see the unit of the property that owns it)' % (u.name, f.name(u.name), prop))
+                u.failures = [f for f in u.failures if f not in other]
+                u.not_owned = len({f.fn for f in other})
             u.functions = [fr for fr in u.functions if fr['fn'] in only_fns]
             u.verified = sum(1 for fr in u.functions if fr.get('success'))
             u.errors = sum(1 for fr in u.functions if fr.get('success') is False)
@@ -701,6 +773,14 @@ def report(prop, tier, seed, results, extras, wall, rebaseline, replay):
         if getattr(u, 'auto_stubs', None):
             trusted.append('%s: AUTO-STUBBED callees without contract: %s' % (u.name, ', '.join(u.auto_stubs)))
             print('NOTE unit=%s callees not known to the unit were stubbed without a contract: %s' % (u.name, ', '.join(u.auto_stubs)))
+            forb_u = unit_header_opts(os.path.join(VERIF, 'units', u.name)).get('forbid')
+            if forb_u and u.status in ('ok', 'fail'):
+                hit = getattr(getattr(u, 'gen', None), 'auto_forbidden', [])
+                free = [q for q in u.auto_stubs if not re.search(forb_u, q.split('::')[-1]) and not any(q.endswith(h) for h in hit)]
+                if free:
+                    # a unit about what is reachable cannot pass over a callee whose effects nobody stated
+                    undecided.append('%s: new callee(s) %s have no contract and reach no forbidden function by name; whether they write is not known to the unit'
+                                     % (u.name, ', '.join(free)))
         if u.mutants:
             mutants.extend(dict(unit=u.name, **m) for m in u.mutants)
         if u.seeds:
@@ -725,7 +805,8 @@ def report(prop, tier, seed, results, extras, wall, rebaseline, replay):
                 rec = next((r for r in u.gen.fns if r.qual == f.fn), None) if hasattr(u, 'gen') else None
                 forb = unit_header_opts(os.path.join(VERIF, 'units', u.name)).get('forbid')
                 new_callees = [q for q in getattr(u, 'auto_stubs', []) if rec is not None and re.search(r'\b%s\s*\(' % re.escape(q.split('::')[-1]), rec.raw or '')
-                               and not (forb and re.search(forb, q.split('::')[-1]))]      # a forbidden callee is stubbed WITH a contract (requires false)
+                               and not (forb and re.search(forb, q.split('::')[-1]))      # a forbidden callee is stubbed WITH a contract (requires false)
+                               and not any(q.endswith(h) for h in getattr(u.gen, 'auto_forbidden', []))]   # ... and so is a new callee that reaches one
                 if new_callees:
                     wit = find_witness(prop, u, f, nm)
                     if wit:
@@ -780,10 +861,11 @@ def report(prop, tier, seed, results, extras, wall, rebaseline, replay):
                                verified=u.verified_total,
                                # text hashes of what the unit extracts: a proof that cannot be attempted although none of them
                                # changed is a fault of the machinery, never a reason to fall back to the replay
-                               sha={fr['fn']: fr.get('sha256_16') for fr in u.functions_total if fr.get('sha256_16')})
+                               sha={fr['fn']: fr.get('sha256_16') for fr in u.functions_total if fr.get('sha256_16')},
+                               items={'%s %s' % (it['kind'], it['name']): it['sha'] for it in getattr(getattr(u, 'gen', None), 'items', [])})
         # vacuity / count floor
         b = baseline.get(u.name)
-        if b and u.status == 'ok' and u.verified_total < b.get('verified', 0) and not rebaseline:
+        if b and u.status == 'ok' and u.verified_total + getattr(u, 'not_owned', 0) < b.get('verified', 0) and not rebaseline:
             undecided.append('%s: verifier discharged %d units, baseline minimum is %d' % (u.name, u.verified_total, b.get('verified', 0)))
     for e in extras:
         cmds.extend(e.get('cmds', []))
